@@ -48,6 +48,22 @@ func HarnessC14Schedule() {
 	vAssert(err == nil, "well-formed schedule evaluates without error")
 
 	// oracle
+	var dl3 [][3]int
+	for _, x := range dl {
+		dl3 = append(dl3, [3]int{x.y, x.m, x.d})
+	}
+	want := c14Want(t, sh, sm, eh, em, wds, dl3)
+	if want {
+		vCover("schedule: active")
+	} else {
+		vCover("schedule: inactive")
+	}
+	vAssert(got == want, "schedule is active exactly when t lies in a window whose start day passes the filters")
+}
+
+// c14Want restates the property with the time package: a day D (UTC) allowed
+// by both filters with start(D) <= t < end(D or D+1).
+func c14Want(t time.Time, sh, sm, eh, em int, wds []time.Weekday, dl [][3]int) bool {
 	tu := t.UTC()
 	mid := time.Date(tu.Year(), tu.Month(), tu.Day(), 0, 0, 0, 0, time.UTC)
 	want := false
@@ -62,7 +78,7 @@ func HarnessC14Schedule() {
 		}
 		okDate := len(dl) == 0
 		for _, x := range dl {
-			if x.y == y && x.m == mo && x.d == dd {
+			if x[0] == y && x[1] == mo && x[2] == dd {
 				okDate = true
 			}
 		}
@@ -79,10 +95,5 @@ func HarnessC14Schedule() {
 			want = true
 		}
 	}
-	if want {
-		vCover("schedule: active")
-	} else {
-		vCover("schedule: inactive")
-	}
-	vAssert(got == want, "schedule is active exactly when t lies in a window whose start day passes the filters")
+	return want
 }
